@@ -6,6 +6,15 @@ CLAIMED = {
  'C02': dict(level='other', design='§5 C02', technique='symbolic execution of clang IR of the real box classes (own interpreter) + z3 over reals/integers; parallel per-image-vector lemma queries',
    text='For all real coordinates and all orthorhombic (L>0) / GROMACS-reduced triclinic boxes, z3 shows on the expressions the real OrthorhombicBox/TriclinicBox/OpenBox::BCShortestConnection compute: lattice equivalence, half-box (brick) bound, invariance under whole box vectors, antisymmetry, component-wise shortest (orthorhombic), and the pure-real lemma "brick => no image vector |n_i|<=1 (thorough 2) is shorter and below h_min/2"; BoxVolume=|det|, getShortestBoxDimension=min height, box-type auto-detection and explicit dispatch through Topology::setBox. Bounded symbolic checking, exact-real semantics; not a proof (image-vector range and solver timeouts are bounds).',
    note='doubles are modelled as exact reals (the property says "to rounding"); ties of round() excluded in invariance/antisymmetry; triclinic invariance shift |n_i|<=3 (quick) / 1000 (thorough); trusted: clang -O1 lowering, engine/llir.py+symx.py (validated each run bit-for-bit against a g++ build on the repo test boxes + random vectors), z3'),
+ 'C07': dict(level='other', design='§5 C07', technique='symbolic execution of clang IR + automatic differentiation of the value function\'s own expression + canonical-radical normal form; z3 decides residual != 0',
+   text='For all bead geometries away from the singular set, the expression IBond/IAngle/IDihedral::Grad computes equals the derivative (AD over the executed IR) of what EvaluateVar computes, per bead and component, and the gradients sum to zero; for LJ126/LJG and the cubic B-spline, CalculateDF/D2F equal the parameter derivatives of CalculateF (inside and outside [min,cut]), D2F symmetric. Each identity is reduced to a polynomial residual and z3 is asked for a point where it is non-zero under the defining constraints of the radical/exp symbols; a model is replayed by finite differences on the g++ build.',
+   note='exact real arithmetic; Topology::getDist is the environment boundary (independent symbols, chain rule +-1); sqrt/acos/exp as canonical symbols with defining relations; CBSPL knot layouts concrete (listed in evidence); spline derivative clause is decided under C12; SavePotTab and rotation/image invariance are outside this check'),
+ 'C13': dict(level='model_checking', engine='e1-cbmc', design='§5 C13', technique='IR->C translation of the real HistogramNew::Process + CBMC (bit-precise doubles/ints, bounds checks) for memory safety; symbolic execution + z3 (linear int/real) for bin semantics, normalisation and the legacy auto range',
+   text='E1: for every finite v, scale, min<max, step>0 and nbins<=8 (thorough 64), periodic or not, CBMC shows every memory access of the translated real Process stays inside the nbins-double buffer (unwinding assertions on, reachability witness). E2: for nbins<=3 (thorough 5), all real min, listed range lengths, all real values/weights, each bin ends up with exactly the weights of the values whose nearest centre it is (wrapped modulo nbins when periodic, dropped otherwise), bins sum to the accepted weight, Normalize keeps ratios and makes sum*step=1, and the legacy Histogram automatic range is exactly [min,max] of the data for any sign.',
+   note='allocation failure out of scope; out-of-range double->int64 conversion reported as UB-CLASS (not a violation); E2 in exact reals; legacy histogram only for n_=3, auto range, no scaling'),
+ 'C20': dict(level='other', design='§5 C20', technique='symbolic enum arguments through the real convert() switch tables (ite chains) + z3 over exact rationals; ground constant checks against CODATA values embedded in the checker',
+   text='For all ordered pairs and triples of enumerators of every dimension (enum arguments are solver variables): convert(a,b)*convert(b,a)=1, convert(a,b)*convert(b,c)=convert(a,c), positivity, agreement with SI/CODATA-2018 magnitudes to 1e-4, derived units = quotient of base conversions to 2^-50; tools::conv constants vs CODATA and vs UnitConverter to 1e-4; CsgUnits are the documented internal units.',
+   note='double literals taken as exact rationals; reference values live in props/C20.py; Elements tables outside; one known finding (kcal2kj) listed in known_findings.json'),
 }
 NA = {
 }
